@@ -9,6 +9,9 @@
 (* wildcards ? and * and the escapes ~? ~* ~~).  On the sheet it is the    *)
 (* number itself or the string op \o operand; a text operand that looks    *)
 (* like a number IS a numeric criterion, so text operands here never do.   *)
+(* A criterion read from a blank cell is <<"", Blank>>: Excel's COUNTIFS   *)
+(* page: "If the criteria argument is a reference to an empty cell, the    *)
+(* COUNTIFS function treats the empty cell as a 0 value."                  *)
 (*                                                                         *)
 (* Matches(cell, crit) is a RELATION: the set of truth values the property *)
 (* statement allows.  It is {TRUE} or {FALSE} where the statement (and     *)
@@ -21,7 +24,8 @@
 (*   - an empty-text cell against "", "=", "<>" or a text ordering;        *)
 (*   - text ordering when either side is not purely alphabetic (Excel's    *)
 (*     collation of punctuation and digits is not code-point order).       *)
-(* These cells still take part in "never fails" and in the laws.           *)
+(* These cells still take part in "never fails" and in the laws; whatever   *)
+(* the answer is, "=x" and "<>x" give opposite ones (Complementary).       *)
 (*                                                                         *)
 (* The enumerator machine appends cells to the range and criteria to the   *)
 (* criteria list.  Criterion j applies to the range rotated by j-1 cells,  *)
@@ -49,7 +53,8 @@ UpperSeq == <<"A","B","C","D","E","F","G","H","I","J","K","L","M",
               "N","O","P","Q","R","S","T","U","V","W","X","Y","Z">>
 Digits   == {"0","1","2","3","4","5","6","7","8","9"}
 
-Punct    == {".", "?", "*", "~", "-", " ", "_"}
+LineBreak == "\n"                  \* Alt+Enter in a cell: a character like any other
+Punct    == {".", "?", "*", "~", "-", " ", "_", LineBreak}
 Chars    == {LowerSeq[i] : i \in 1..26} \cup {UpperSeq[i] : i \in 1..26}
             \cup Digits \cup Punct
 \* constant tables (TLC evaluates them once)
@@ -149,11 +154,23 @@ TextCrit(c, op, p) ==
 Matches(c, cr) ==
   LET op == cr[1]  v == cr[2] IN
   IF IsErr(c) THEN BOOLEAN
+  ELSE IF IsBlank(v) THEN NumCrit(c, op, 0)      \* read from a blank cell: 0
   ELSE IF IsNum(v) THEN NumCrit(c, op, v[2])
   ELSE IF v[2] = <<>> THEN EmptyCrit(c, op)
   ELSE TextCrit(c, op, v[2])
 
 Fixed(c, cr) == Cardinality(Matches(c, cr)) = 1
+
+\* "=x" and "<>x" partition the range: a cell satisfies exactly one of them,
+\* also where the statement leaves open which one (a logical or a text that
+\* looks like a number against a numeric x).  Not demanded of error cells
+\* (open whether they satisfy anything) and of empty-text cells against the
+\* empty criteria (in Excel a cell holding ="" satisfies both "" and "<>").
+Flip(cr) == <<IF cr[1] = "<>" THEN "=" ELSE "<>", cr[2]>>
+Complementary(c, cr) ==
+  /\ cr[1] \in {"", "=", "<>"}
+  /\ ~IsErr(c)
+  /\ ~(IsTxt(c) /\ c[2] = <<>> /\ IsTxt(cr[2]) /\ cr[2][2] = <<>>)
 
 --------------------------------------------------------------------------
 (* selection *)
@@ -216,8 +233,24 @@ SelfOut(sel) ==
        omax  |-> AggSel("MAX", o),  omin |-> AggSel("MIN", o)]
 Outcome(sel) == DataOut(sel) @@ SelfOut(sel)
 
+\* over a third range of mixed cells (SUMIF(range, criterion, sum_range) with
+\* a sum_range that is neither numeric nor the criteria range): the cells of
+\* MixSeq in order, starting o cells into it.  A selected blank, text or
+\* (possibly) logical adds nothing; SUMIF(range, crit, sum_range) is
+\* SUMIFS(sum_range, range, crit) by definition, whatever sum_range holds.
+MixSeq == <<Blank, Num(3), Txt(<<"x">>), Bool(1), Num(-4), Txt(<<"7">>), Err("#N/A")>>
+Mixed(o) == [i \in 1..N |-> MixSeq[((i - 1 + o) % Len(MixSeq)) + 1]]
+\* every starting point for ranges of one or two cells, one for longer ones
+Offsets == IF N <= 2 THEN 0..(Len(MixSeq) - 1) ELSE {(N + Len(crits)) % Len(MixSeq)}
+MixOut(sel, o) ==
+  LET q == PickSel(Mixed(o), sel, 1)
+  IN  [mask |-> Mask(sel),
+       msum |-> AggSel("SUM", q),  mavg |-> AggSel("AVERAGE", q),
+       mmax |-> AggSel("MAX", q),  mmin |-> AggSel("MIN", q)]
+
 Enumerable == Cardinality(Free) <= FreeMax
 Outcomes == IF Enumerable THEN {Outcome(sel) : sel \in SelSets} ELSE {}
+MixOutcomes(o) == IF Enumerable THEN {MixOut(sel, o) : sel \in SelSets} ELSE {}
 
 --------------------------------------------------------------------------
 (* the enumerator machine *)
@@ -242,10 +275,11 @@ Spec == Init /\ [][Next]_vars
 \* the criteria pools stay inside the grammar the relation is defined for: a
 \* text operand never looks like a number (it would be a numeric criterion),
 \* ordering operators never carry wildcards (Excel's reading is not
-\* documented), ~ only escapes ? * ~, operators are the seven known ones
+\* documented), ~ only escapes ? * ~, operators are the seven known ones, a
+\* blank cell is a criterion by itself (no operator in front of it)
 ASSUME \A cr \in CritPool \cup Crit2Pool :
          /\ cr[1] \in {"", "=", "<>"} \cup Ordering
-         /\ IsNum(cr[2]) \/ IsTxt(cr[2])
+         /\ IsNum(cr[2]) \/ IsTxt(cr[2]) \/ (IsBlank(cr[2]) /\ cr[1] = "")
          /\ IsTxt(cr[2]) =>
               LET t == cr[2][2] IN
               /\ ~NumericLooking(t)
@@ -283,7 +317,8 @@ Commute ==
 Narrowing == [][crits' # crits => (May' \subseteq May /\ Must' \subseteq Must)]_vars
 
 \* "=x" and "<>x" partition the range (over the cells the statement fixes)
-Flip(cr) == <<IF cr[1] = "<>" THEN "=" ELSE "<>", cr[2]>>
+\* the relation allows an answer to "=x" exactly when it allows the opposite
+\* answer to "<>x"
 Partition ==
   \A j \in 1..Len(crits) : crits[j][1] \in {"", "=", "<>"} =>
      \A i \in 1..N :
@@ -291,6 +326,23 @@ Partition ==
             a == Matches(c, crits[j])  b == Matches(c, Flip(crits[j]))
         IN  /\ Fixed(c, crits[j]) <=> Fixed(c, Flip(crits[j]))
             /\ Fixed(c, crits[j]) => a # b
+            /\ Fixed(c, crits[j]) => Complementary(c, crits[j])
+            /\ Complementary(c, crits[j]) => b = {~x : x \in a}
+\* a criterion read from a blank cell is the criterion 0
+BlankIsZero ==
+  \A i \in 1..N : \A op \in {"", "=", "<>"} \cup Ordering :
+     Matches(rng[i], <<op, Blank>>) = Matches(rng[i], <<op, Num(0)>>)
+\* a line break in a cell is one character: "?" stands for it, "*" spans it
+LineBreakLaw ==
+  \A i \in 1..N :
+     (/\ IsTxt(rng[i]) /\ ~HasWildcard(rng[i][2])
+      /\ \E k \in DOMAIN rng[i][2] : rng[i][2][k] = LineBreak) =>
+     LET t == rng[i][2]
+         q == [k \in DOMAIN t |-> IF t[k] = LineBreak THEN "?" ELSE t[k]]
+     IN  /\ Matches(rng[i], <<"", Txt(t)>>) = {TRUE}
+         /\ Matches(rng[i], <<"<>", Txt(t)>>) = {FALSE}
+         /\ Matches(rng[i], <<"", Txt(q)>>) = {TRUE}
+         /\ Matches(rng[i], <<"", Txt(<<"*", LineBreak, "*">>)>>) = {TRUE}
 \* no operator means "="
 NoOpIsEq ==
   \A j \in 1..Len(crits) : crits[j][1] = "" =>
@@ -348,8 +400,14 @@ Export ==
                  data  |-> Data,
                  \* positions whose answer to the first criterion is fixed
                  fixed |-> Mask({i \in 1..N : Fixed(rng[i], crits[1])}),
+                 \* ... and those where "=x" / "<>x" must give opposite answers
+                 compl |-> Mask({i \in 1..N : Complementary(rng[i], crits[1])}),
                  outs  |-> Outcomes,
+                 \* the mixed third range, per starting point
+                 mixed |-> {[o |-> o, cells |-> Mixed(o), outs |-> MixOutcomes(o)]
+                            : o \in Offsets},
                  \* single criterion "=x" / "<>x": together with its flipped
                  \* twin it must partition the fixed positions
-                 part  |-> Len(crits) = 1 /\ crits[1][1] \in {"", "=", "<>"}]))
+                 part  |-> /\ Len(crits) = 1 /\ crits[1][1] \in {"", "=", "<>"}
+                           /\ ~IsBlank(crits[1][2])]))
 =============================================================================
